@@ -694,7 +694,7 @@ def finish_db(w, log):
     ops, obs, problems = w.rec.lines()
     # final queries on the real storage, appended to the recorded trace
     r = L.StorageRunner.__new__(L.StorageRunner)
-    r.storage, r.base, r.pending, r.begun, r.txns, r.events = w.storage, w.base, {}, set(), {}, []
+    r.storage, r.base, r.pending, r.begun, r.txns, r.events, r.voted = w.storage, w.base, {}, set(), {}, [], set()
     fin = []
     for o in w.case['objs']:
         oid = w.oids[o]
@@ -928,6 +928,8 @@ def run_real(case, tmp, tag):
         return dict(ops=ops, obs=obs)
     if case['section'] == 'db':
         return run_db_real(case, tmp, tag)
+    if case['section'] == 'threads':        # replay of a plain-threads finding
+        return dict(ops=[], obs=[], threads_problems=run_threads_smoke(case['kind'], tmp, case.get('n', 40)))
     return run_sched_real(case, tmp, tag)
 
 
@@ -946,6 +948,8 @@ def run_real_safe(case, tmp, tag):
 def judge(case, res):
     if res.get('crash'):
         return [('C03:unexpected-exception:' + res['crash'][0], res['crash'][1])], False, {}
+    if case['section'] == 'threads':
+        return list(res['threads_problems']), False, {}
     P, nontriv, hc = oracle_trace(res['ops'], res['obs'])
     if case['section'] != 'storage':
         P += oracle_db(res)
@@ -964,6 +968,8 @@ def shrink(case, sig, tmp):
         except InfraError:
             return False
         return any(s == sig for s, _ in P)
+    if case['section'] == 'threads':
+        return case
     if case['section'] == 'storage':
         tail = [o for o in case['ops'] if o.split()[0] in ('cur', 'load', 'hist')]
         body = [o for o in case['ops'] if o.split()[0] not in ('cur', 'load', 'hist')]
@@ -1076,7 +1082,7 @@ def main(argv=None):
             except BaseException as e:  # noqa: B902
                 probs = [('C03:unexpected-exception:' + type(e).__name__, 'plain-threads run on %s raised %r' % (kind, e))]
             for sig, what in probs:
-                ck.violation(sig, what, dict(case=dict(section='threads', kind=kind)))
+                ck.violation(sig, what, dict(case=dict(section='threads', kind=kind, n=40 if not ck.thorough else 400)))
             ck.count('threads-smoke:' + kind)
     ck.finish(
         rule='three sections x 4 storage kinds (file, mapping, demo over mapping with mapping/file changes): '
@@ -1096,12 +1102,17 @@ def _work(args):
     idx, case, tmp = args
     import logging
     logging.disable(logging.CRITICAL)
+    import shutil
+    sub = os.path.join(tmp, 'case%d' % idx)
+    os.makedirs(sub, exist_ok=True)
     try:
-        res = run_real_safe(case, tmp, 'w%d' % idx)
+        res = run_real_safe(case, sub, 'w')
         res['judged'] = judge(case, res)
         return idx, res, None
     except InfraError as e:
         return idx, None, 'infra: %s' % e
+    finally:
+        shutil.rmtree(sub, ignore_errors=True)
 
 
 MAX_BAD = 6      # stop executing further cases once this many have violated the property
